@@ -36,22 +36,31 @@ Vars(f, fIm, okFIm, s, d, a, m, i, okF, okSM, okA, okI) ==
         IF var = "base" THEN Tab(f, s, d, a, m, i, okF, okSM, okA, okI)
         ELSE Tab(fIm, s, d, a, m, i, okFIm, okSM, okA, okI)]
 
-\* validity patterns b = <<Fajr, Fajr at the Imsaak depression, Shurooq & Maghrib, Asr, Isha>>.
-\* Environment assumption (holds below the polar-night latitudes, |lat| < ~72): the Sun reaching
-\* the deeper Imsaak depression implies it reaches the Fajr depression.
-Patterns == {b \in [1..5 -> BOOLEAN] : b[2] => b[1]}
-HereSet == {Vars(14431, 13812, b[2], 21645, 43229, 55830, 64859, 72000, b[1], b[3], b[4], b[5]) : b \in Patterns}
-NlSet == {Vars(15931, 15312, TRUE, 23145, 43229, 57330, 63359, 70500, TRUE, TRUE, TRUE, TRUE),
-          \* the substitute latitude has a Fajr at the configured angle but none at the Imsaak depression
-          Vars(15931, 15312, FALSE, 23145, 43229, 57330, 63359, 70500, TRUE, TRUE, TRUE, TRUE),
-          Vars(15931, 15312, FALSE, 23145, 43229, 57330, 63359, 70500, FALSE, TRUE, TRUE, FALSE),
-          Vars(15931, 15312, FALSE, 23145, 43229, 57330, 63359, 70500, FALSE, FALSE, FALSE, FALSE)}
+\* validity patterns b = <<Fajr, Fajr at the Imsaak depression, Shurooq & Maghrib, Asr, Isha>>: ALL 32, at the site
+\* and at the substitute latitude.  (Until the whole-pipeline conformance run was widened to polar sites and arbitrary
+\* substitute latitudes the model explored 24 site patterns - assuming "the deeper Imsaak depression is reached only if
+\* the Fajr depression is", false beyond 84.5 degrees - and 4 substitute-latitude patterns; 17 substitute patterns and 3
+\* site patterns outside that environment occur in recorded calls, see bin/conform's environment report.)
+\* Shurooq and Maghrib exist together (one cos H test in get_shur_magh); Dhuhr always exists.
+Patterns == [1..5 -> BOOLEAN]
+AllTrue == [k \in 1..5 |-> TRUE]
+HereOf(b) == Vars(14431, 13812, b[2], 21645, 43229, 55830, 64859, 72000, b[1], b[3], b[4], b[5])
+NlOf(b) == Vars(15931, 15312, b[2], 23145, 43229, 57330, 63359, 70500, b[1], b[3], b[4], b[5])
+PatOf(tabs) == [k \in 1..5 |-> CASE k = 1 -> tabs["base"][Fajr].ok [] k = 2 -> tabs["im"][Fajr].ok
+                                  [] k = 3 -> tabs["base"][Shurooq].ok [] k = 4 -> tabs["base"][Asr].ok
+                                  [] OTHER -> tabs["base"][Isha].ok]
+\* the Sun reaching the deeper Imsaak depression implies it reaches the Fajr depression: true below 84.5 degrees,
+\* used only by invariants whose property is quantified over lower latitudes
+Below84(tabs) == tabs["im"][Fajr].ok => tabs["base"][Fajr].ok
+NLPolicies == {NLAllAlways, NLFIAlways, NLFIInvalid}
+NGPolicies == {NGAllAlways, NGFIInvalid}
 G1 == Tab(15031, 22245, 43829, 56430, 65459, 72600, TRUE, TRUE, TRUE, TRUE)
 G2 == Tab(15631, 22845, 44429, 57030, 66059, 73200, TRUE, TRUE, TRUE, TRUE)
-\* environment assumption: where some day of the year has a valid Fajr and Isha, some day also has
-\* them at the 1.5 degree deeper Imsaak depression (true for |lat| < ~70: winter nights are deep)
+\* the nearest good day: none within the year, one at both depressions, or one at the Fajr angle but none at the
+\* 1.5 degree deeper Imsaak depression (possible above ~70 degrees)
 GoodSet == { [var \in {"base", "im"} |-> NoGood],
-             [var \in {"base", "im"} |-> IF var = "base" THEN Good(G1) ELSE Good(G2)] }
+             [var \in {"base", "im"} |-> IF var = "base" THEN Good(G1) ELSE Good(G2)],
+             [var \in {"base", "im"} |-> IF var = "base" THEN Good(G1) ELSE NoGood] }
 
 Offsets(fo) == [p \in P7 |-> CASE p = Fajr -> fo [] p = Asr -> 180 [] p = Isha -> 0 - 120 [] OTHER -> 0]
 
@@ -60,7 +69,11 @@ Init ==
           fo \in FajrOffsets \cup (IF NegOffsets THEN {0 - x : x \in FajrOffsets} ELSE {}), rnd \in Roundings :
           P = [pol |-> pol, fa |-> 1800, ia |-> 1700, ima |-> 150, fi |-> fi, ii |-> ii, imi |-> imi,
                off |-> Offsets(fo), rnd |-> rnd, var |-> "base"]
-    /\ \E here \in HereSet, nl \in NlSet, good \in GoodSet : env = [here |-> here, nl |-> nl, good |-> good]
+    \* the substitute latitude matters to the nearest-latitude policies only, the good day to the nearest-good-day ones
+    /\ \E hb \in Patterns,
+          nb \in (IF P.pol \in NLPolicies THEN Patterns ELSE {AllTrue}),
+          good \in (IF P.pol \in NGPolicies THEN GoodSet ELSE {[var \in {"base", "im"} |-> NoGood]}) :
+          env = [here |-> HereOf(hb), nl |-> NlOf(nb), good |-> good]
     /\ stage = "start"
     /\ h = [p \in P6 |-> Inv]
     /\ res = [p \in P7 |-> [ok |-> FALSE, t |-> 0, x |-> FALSE]]
